@@ -102,6 +102,61 @@ package cluster_info
 //@   lemma [finding-queue-cycles-two] forall k in queues :: queues[k].ParentQueue != "" && queues[k].ParentQueue != k ==> queues[queues[k].ParentQueue].ParentQueue != k
 //@ end
 
+// ---- parent chains (acyclicity) -----------------------------------------------------------------
+// qanc(s, n): the queue id reached from s after n parent steps. ancOK(qs) DEFINES this spec-only
+// symbol for the map qs (iterate "go to ParentQueue while inside the map, stay put outside"): it
+// holds of exactly one function in every heap, so requiring it excludes no execution (same device as
+// proportion/utils.chainOK). The third conjunct (composition) is a property of every iterate.
+//@ declare qanc(s common_info.QueueID, n int) common_info.QueueID
+//@ define ancOK(qs map[common_info.QueueID]*queue_info.QueueInfo) bool = (forall s common_info.QueueID :: qanc(s, 0) == s) && (forall s common_info.QueueID, n int :: n >= 0 && qanc(s, n) in qs ==> qanc(s, n + 1) == qs[qanc(s, n)].ParentQueue) && (forall s common_info.QueueID, m int, j int :: m >= 0 && j >= 0 ==> qanc(qanc(s, m), j) == qanc(s, m + j))
+// s reaches a top-level queue (ParentQueue == "") after exactly n parent steps, all inside the map
+//@ define rootAt(qs map[common_info.QueueID]*queue_info.QueueInfo, s common_info.QueueID, n int) bool = 0 <= n && (forall m int :: 0 <= m && m <= n ==> qanc(s, m) in qs) && (forall m int :: 0 <= m && m < n ==> qs[qanc(s, m)].ParentQueue != "") && qs[qanc(s, n)].ParentQueue == ""
+
+// C10 (fix 3fa1605): true iff the parent chain of queueID reaches a top-level queue within
+// len(queues) steps without leaving the map. Terminates on every map (bounded by len(queues)+1).
+//@ func queueReachesRoot
+//@   props C10
+//@   requires nonNil(queues) && ancOK(queues)
+//@   pure
+//@   loop 1
+//@     invariant 0 <= steps && steps <= len(queues) + 1
+//@     invariant cur(queueID) == qanc(queueID, steps)
+//@     invariant forall m int :: 0 <= m && m < steps ==> qanc(queueID, m) in queues && queues[qanc(queueID, m)].ParentQueue != ""
+//@     decreases len(queues) + 1 - steps
+//@   ensures [rootedWithinBound] result ==> (exists n int :: n <= len(queues) && rootAt(queues, queueID, n))
+//@   ensures [exact] !result ==> (forall n int :: n <= len(queues) ==> !rootAt(queues, queueID, n))
+//@ end
+
+// the parent chain of s reaches a top-level queue within len(qs) steps, inside the map
+//@ define reach(qs map[common_info.QueueID]*queue_info.QueueInfo, s common_info.QueueID) bool = exists n int :: n <= len(qs) && rootAt(qs, s, n)
+// s is one of the first cnt elements of l
+//@ define listed(l []common_info.QueueID, cnt int, s common_info.QueueID) bool = exists i int :: 0 <= i && i < cnt && l[i] == s
+
+// C10 (fix 3fa1605): "queue parent cycles or self-parents": afterwards EVERY remaining queue reaches a
+// top-level queue through remaining queues (so the parent relation restricted to the map is acyclic and
+// rank(k) = number of steps to the root strictly decreases along ParentQueue); only queues that do
+// not reach a root within len(queues) steps are removed.
+//@ func cleanQueueCycles
+//@   props C10
+//@   requires nonNil(queues) && ancOK(queues)
+//@   modifies queues[*]
+//@   loop 1
+//@     invariant forall i int :: 0 <= i && i < len(unrooted) ==> unrooted[i] in queues && !reach(queues, unrooted[i])
+//@     invariant forall k in visited :: reach(queues, k) || listed(unrooted, len(unrooted), k)
+//@   loop 2
+//@     invariant 0 - 1 <= rangeindex && rangeindex < len(unrooted)
+//@     invariant forall k in queues :: old(k in queues) && queues[k] == old(queues[k])
+//@     invariant forall i int :: 0 <= i && i < len(unrooted) ==> old(unrooted[i] in queues) && !old(reach(queues, unrooted[i]))
+//@     invariant forall k common_info.QueueID :: old(k in queues) ==> old(reach(queues, k)) || listed(unrooted, len(unrooted), k)
+//@     invariant forall k common_info.QueueID, n int, m int :: old(rootAt(queues, k, n)) && 0 <= m && m <= n ==> old(rootAt(queues, qanc(k, m), n - m))
+//@     invariant forall i int :: 0 <= i && i <= rangeindex ==> !(unrooted[i] in queues)
+//@     invariant forall k common_info.QueueID :: old(k in queues) && !(k in queues) ==> listed(unrooted, rangeindex + 1, k)
+//@     decreases len(unrooted) - rangeindex
+//@   ensures [rooted] forall k in queues :: exists n int :: rootAt(queues, k, n)
+//@   ensures [onlyDeletes] forall k in queues :: old(k in queues) && queues[k] == old(queues[k])
+//@   ensures [onlyUnrootedPruned] forall k common_info.QueueID :: old(k in queues) && !(k in queues) ==> !old(reach(queues, k))
+//@ end
+
 // The queue map handed to UpdateQueueHierarchy: every value is a non-nil QueueInfo stored under its
 // own UID, with an empty child list (this is UpdateQueueHierarchy's precondition; the call in
 // Snapshot passes exactly this map).
